@@ -121,9 +121,10 @@ Section Bridge.
 
 Variable lc : lctx.
 Variable max_result_chars : nat.
+Variable max_template_chars : nat.
 
 Notation match_case' := (match_case text cfl_eval cfl_text cfl_registered cfl_test lc).
-Notation route_switch' := (route_switch text cfl_eval cfl_text cfl_registered cfl_test lc max_result_chars).
+Notation route_switch' := (route_switch text cfl_eval cfl_text cfl_registered cfl_test lc max_result_chars max_template_chars).
 
 (* matchCase of the two models agree: no events, and the first case whose argument equals the operand *)
 Lemma match_case_bridge operand cs :
@@ -189,10 +190,10 @@ Proof.
   - intros H; inversion H; subst. split; [reflexivity|]. fold operand. rewrite Hc. reflexivity.
 Qed.
 
-Theorem engine_route_refines (lc : lctx) (max_result_chars : nat) a x ri sr n rt x' e op prev :
+Theorem engine_route_refines (lc : lctx) (max_result_chars max_template_chars : nat) a x ri sr n rt x' e op prev :
   Engine.route a x ri sr n rt = Engine.Done x' (e, op) ->
   op = Engine.operand_of (Engine.session_ x)
-  /\ ro_res (route_switch text cfl_eval cfl_text cfl_registered cfl_test lc max_result_chars
+  /\ ro_res (route_switch text cfl_eval cfl_text cfl_registered cfl_test lc max_result_chars max_template_chars
                           (embed_base rt) op (map embed_case (Engine.rt_cases rt)) (embed_default rt) prev)
      = match e with Some i => RExit (i + 1) op | None => RExit no_uuid op end.
 Proof.
